@@ -43,6 +43,13 @@ if __name__ == "__main__":
     t0 = time.time()
     subprocess.run(["verus", warm], capture_output=True, cwd=os.path.dirname(warm))
     print("setup: verus warm-up %.0fs" % (time.time() - t0))
+    t0 = time.time()
+    p = subprocess.run(["cargo", "+1.98.1-x86_64-unknown-linux-gnu", "build", "--offline", "--target-dir",
+                        os.path.join(ROOT, ".cache", "verus-deps")], cwd=os.path.join(ROOT, "tools", "verus_deps"),
+                       env=dict(os.environ, CARGO_NET_OFFLINE="true"), capture_output=True, text=True)
+    print("setup: verus dependency rlibs (chrono): exit %d in %.0fs" % (p.returncode, time.time() - t0))
+    if p.returncode:
+        print(p.stderr[-1500:])
     import registry
     seen = set()
     for spec in registry.CHECKS.values():
